@@ -227,6 +227,9 @@
 #endif
 
 #include "assert.hpp"
+#ifdef UNODB_DETAIL_VERIF_HOOKS
+#include "verif_hooks.hpp"
+#endif
 
 namespace unodb {
 
@@ -237,6 +240,9 @@ namespace unodb {
 // TODO(laurynas): move to unodb::detail namespace
 // LCOV_EXCL_START
 inline void spin_wait_loop_body() noexcept {
+#ifdef UNODB_DETAIL_VERIF_HOOKS
+  unodb::verif::sched(unodb::verif::SPIN, nullptr);
+#endif
 #if UNODB_SPINLOCK_LOOP_VALUE == UNODB_DETAIL_SPINLOCK_LOOP_PAUSE
 
 #if defined(UNODB_DETAIL_X86_64)
@@ -361,11 +367,17 @@ class [[nodiscard]] optimistic_lock final {
    public:
     /// Atomically load the lock word with acquire memory ordering.
     [[nodiscard]] version_type load_acquire() const noexcept {
+#ifdef UNODB_DETAIL_VERIF_HOOKS
+      unodb::verif::sched(unodb::verif::LOCK_LOAD_ACQ, &version);
+#endif
       return version_type{version.load(std::memory_order_acquire)};
     }
 
     /// Atomically load the lock word with relaxed memory ordering.
     [[nodiscard]] version_type load_relaxed() const noexcept {
+#ifdef UNODB_DETAIL_VERIF_HOOKS
+      unodb::verif::sched(unodb::verif::LOCK_LOAD_RLX, &version);
+#endif
       return version_type{version.load(std::memory_order_relaxed)};
     }
 
@@ -377,6 +389,9 @@ class [[nodiscard]] optimistic_lock final {
     [[nodiscard]] bool cas_acquire(version_type expected,
                                    version_type new_val) noexcept {
       auto expected_val = expected.get();
+#ifdef UNODB_DETAIL_VERIF_HOOKS
+      unodb::verif::sched(unodb::verif::LOCK_CAS, &version);
+#endif
       return UNODB_DETAIL_LIKELY(version.compare_exchange_strong(
           expected_val, new_val.get(), std::memory_order_acquire,
           std::memory_order_relaxed));
@@ -393,6 +408,9 @@ class [[nodiscard]] optimistic_lock final {
       UNODB_DETAIL_ASSERT(old_lock_word.is_write_locked());
 
       const auto new_lock_word = old_lock_word.get() + 2;
+#ifdef UNODB_DETAIL_VERIF_HOOKS
+      unodb::verif::sched(unodb::verif::LOCK_UNLOCK, &version);
+#endif
       version.store(new_lock_word, std::memory_order_release);
     }
 
@@ -407,6 +425,9 @@ class [[nodiscard]] optimistic_lock final {
       UNODB_DETAIL_ASSERT(old_lock_word.is_write_locked());
 #endif
 
+#ifdef UNODB_DETAIL_VERIF_HOOKS
+      unodb::verif::sched(unodb::verif::LOCK_OBSOLETE, &version);
+#endif
       version.store(version_type::obsolete_lock_word,
                     std::memory_order_release);
 
@@ -912,11 +933,17 @@ class [[nodiscard]] in_critical_section final {
 
   /// Explicitly read the wrapped value.
   [[nodiscard]] T load() const noexcept {
+#ifdef UNODB_DETAIL_VERIF_HOOKS
+    unodb::verif::sched(unodb::verif::FIELD_LOAD, &value);
+#endif
     return value.load(std::memory_order_relaxed);
   }
 
   /// Explicitly assign the wrapped value from \a new_value.
   void store(T new_value) noexcept {
+#ifdef UNODB_DETAIL_VERIF_HOOKS
+    unodb::verif::sched(unodb::verif::FIELD_STORE, &value);
+#endif
     value.store(new_value, std::memory_order_relaxed);
   }
 
